@@ -286,8 +286,34 @@ def canon_fit(fit):
         "hdus": guard(lambda: {h.name: digest(h.hdu.data.tolist()) for h in fit.hdus}),
         "arrays": sorted(a.name for a in fit.arrays),
         "array_digest": {a.name: guard(lambda a=a: digest([[float(x) for x in row] for row in a.array.tolist()] if a.array.ndim == 2 else a.array.tolist())) for a in fit.arrays},
-        "best_fit": guard(lambda: fit.best_fit.id) if fit.is_grid_search and fit.children else None,
+        # Fit.best_fit of a grid search: the id of the fit it returns | "none" (it returned None) | "exc:<Name>"
+        "best_fit": best_fit_outcome(fit) if fit.is_grid_search else None,
+        # the cells in the order the relationship lists them (the order Fit.best_fit walks them in)
+        "children_order": [c.id for c in fit.children],
     }
+
+
+def best_fit_outcome(fit):
+    try:
+        best = fit.best_fit
+    except Exception as e:  # noqa
+        return "exc:" + type(e).__name__
+    return "none" if best is None else best.id
+
+
+def grid_queries(agg):
+    """the aggregator's own routes to the grid searches and their best fits"""
+    st = {}
+    st["grid_searches"] = sorted(f.id for f in agg.grid_searches().fits)
+    best = list(agg.grid_searches().best_fits().fits)
+    st["best_fits"] = sorted(f.id for f in best)
+    by = {}
+    for f in best:
+        by.setdefault(f.parent_id, []).append(f.id)
+    st["best_fits_by_parent"] = {k: sorted(v) for k, v in by.items()}
+    # ... and the route through the fits the aggregator hands out: [grid search].best_fit
+    st["best_fit_via_aggregator"] = {g.id: best_fit_outcome(g) for g in agg.grid_searches().fits}
+    return st
 
 
 def digest(obj):
@@ -584,8 +610,11 @@ def run_fit(f, session=None):
         if f["type"] == "grid":
             gs = af.SearchGridSearch(search=search, number_of_steps=f["grid"]["steps"], number_of_cores=1)
             grid_priors = [shared[k] for k in f["grid"]["shared"]]
-            with Quiet():
-                res = gs.fit(model=model, analysis=analysis, grid_priors=grid_priors, info=f.get("info"))
+            try:
+                with Quiet():
+                    res = gs.fit(model=model, analysis=analysis, grid_priors=grid_priors, info=f.get("info"))
+            except Interrupt:
+                rec["interrupted"] = True      # a cell was killed: the grid search stops there, its folder stays
             rec["identifier"] = gs.paths.identifier
             rec["output_path"] = str(gs.paths.output_path)
             rec["cells"] = list(search.log)
@@ -727,8 +756,7 @@ def scenario(c, idx):
                 try:
                     load_directory(agg, directory, c)
                     st["top_level"] = sorted(f.id for f in agg.fits)
-                    st["grid_searches"] = sorted(f.id for f in agg.grid_searches().fits)
-                    st["best_fits"] = sorted(f.id for f in agg.grid_searches().best_fits().fits)
+                    st.update(grid_queries(agg))
                 finally:
                     agg.session.close()
         except BaseException as e:  # noqa
@@ -783,6 +811,15 @@ def scenario(c, idx):
         except BaseException as e:  # noqa
             dr["dump_exc"] = exc_name(e) + ": " + str(e)[:200]
             dr["fits"] = []
+        try:
+            with Quiet():
+                agg2 = af.Aggregator.from_database(db2)
+                try:
+                    dr.update(grid_queries(agg2))
+                finally:
+                    agg2.session.close()
+        except BaseException as e:  # noqa
+            dr["query_exc"] = exc_name(e) + ": " + str(e)[:200]
         res["direct"] = dr
     shutil.rmtree(root, ignore_errors=True)
     return res
